@@ -115,6 +115,8 @@ def c10(pid, tier, seed):
         # unknown keys that contain a documented one (binary_pos, human_msg, pos_, Pos, ...): they expand to nothing like any other unknown key
         grammar("g_nearkeys", 2 if q else 3, 2, (97,), Keys=("pos", "binary_pos", "human_msg", "pos_", "xmsg", "len2", "decimal_len", "msgs", "wide_pos", "total_pos", "pos_precise",
                                                       "per_sec_pos", "Pos", "wide_prefix", "binary_msg"), Aligns=("", ">"), Widths=("", "3")),
+        # style words the colour library does not know (.italic, .orange/blue, .red.sparkly/grey) on msg, prefix, pos and bar-less keys
+        grammar("g_unknown_styles", 3 if q else 4, 2, (97,), Keys=("msg", "pos", "k", "zz"), Aligns=("", ">"), Widths=("", "3"), Styles=("u", "ub", "ru", "r")),
         grammar("g_json", 4 if q else 5, 3, (34, 58, 32, 97), Specials=("LB", "RB", "BS"), Keys=("k", "pos")),
         grammar("g_literals", 3 if q else 4, 2, (97, 58, 33, 46, 47, 60, 55, 233, 1000), Specials=("LB", "BS"), Keys=("k",), Widths=("", "1")),
         grammar("g_deep", 14, 5, (97, 32, 34, 58, 55, 233), Specials=("LB", "RB", "NL", "BS", "BN"), Keys=ALLKEYS, Aligns=("", "<", "^", ">"),
